@@ -396,6 +396,62 @@ def zones(R, P):
             "the zone test compares %s / keys %s" % (sorted(consts - need), sorted(names)))
 
 
+def delegation(R, P):
+    """OFFSET/calendar: the conversion from broken-down UTC time to an instant is the C library's (aws_timegm returns
+    timegm(t) unchanged).  A conversion written out by hand is only accepted if it applies the Gregorian century rule
+    (the year enters through / or % by 100 and by 400 as well as by 4): one without it is a day late from 2100-03-01 on."""
+    f = P.fn("aws_timegm")
+    if not R.require(f is not None, "aws_timegm not found (source/posix/time.c not analysed)"):
+        return
+    R.fn(f)
+    tg = f.calls({"timegm", "timegm64", "_mkgmtime"})
+    direct = False
+    for r_ in f.returns():
+        v = RU.uncast(f, r_.node["a"][0]) if r_.node["a"] else None
+        while v is not None and v["k"] == "cast":
+            v = f.d(v["a"][0])
+        if v is not None and v["k"] in ("call", "ref") and tg and (f.d(v) or v).get("id") == tg[0].node["id"]:
+            direct = True
+    if tg and direct:
+        R.ok("OFFSET", "aws_timegm:delegates-to-timegm", "aws_timegm()", "returns the C library's timegm(t) unchanged")
+        return
+    divs = set()
+    for b in f.blocks.values():
+        for el in b.elems:
+            for x in f.walk(el, follow_refs=True):
+                if x["k"] == "bin" and x["op"] in ("/", "%") and f.is_const(x["a"][1]) is not None:
+                    divs.add(f.is_const(x["a"][1]))
+    R.check({4, 100, 400} <= divs or {100, 400} <= divs, "OFFSET", "aws_timegm:delegates-to-timegm", "aws_timegm()", "own day count with the Gregorian century rule (divisors %s)" % sorted(divs),
+            "aws_timegm no longer returns timegm(t) and its own day count divides the year only by %s: without the /100 and /400 corrections every date from 2100-03-01 on converts to an instant one or more days late" % sorted(divs))
+
+
+def fraction_digits(R, P):
+    """FIELD-MAP/fraction: the optional fractional seconds of ISO 8601 may have any number of digits: the digit scan is left
+    only at the end of the text or at the first non-digit (never after a fixed count), and the cursor advances by all of them"""
+    f = P.fn("s_skip_optional_fractional_seconds")
+    if not R.require(f is not None, "s_skip_optional_fractional_seconds not found"):
+        return
+    R.fn(f)
+    from sa.cfg import edges
+    loops = Num(f, P, None).loops()
+    if not R.require(len(loops) == 1, "fraction scan: expected one loop"):
+        return
+    (h, body), = loops.items()
+    bad = []
+    for b in body:
+        for s_, c_, p_ in edges(f, b):
+            if s_ in body or c_ is None or not isinstance(p_, bool):
+                continue
+            names = {x.get("n") or x.get("f") or x.get("callee") for x in f.walk(f.d(c_), follow_refs=True) if x["k"] in ("var", "member", "call")}
+            names.discard(None)
+            if "num_digits" in names or not (names <= {"i", "str", "len", "ptr", "aws_isdigit", "c"}):
+                bad.append(f.show(f.d(c_))[:60])
+    adv = f.calls("aws_byte_cursor_advance")
+    okadv = any("num_digits" in f.show(RU.arg(f, e.node, 1)) for e in adv)
+    R.check(not bad and okadv, "FIELD-MAP", "iso8601:fraction-any-number-of-digits", "%s in %s()" % (FILE, f.name), "the fraction scan stops only at the end of the text or at a non-digit, and all its digits are skipped",
+            "the fractional-seconds scan is left on %s: timestamps with more fraction digits than that (microseconds, nanoseconds) are rejected as invalid dates" % bad)
+
+
 def tm_conventions(R, P):
     """FIELD-MAP/struct-tm conventions at every use: tm_year counts years since 1900 and tm_mon months since January.
     Every plain read of tm_year in date_time.c is therefore adjusted by + 1900 before it is used as a calendar year
@@ -450,6 +506,8 @@ def analyse(ctx, replace=None, only=None):
     month_table(R, P)
     field_map(R, P)
     tm_conventions(R, P)
+    fraction_digits(R, P)
+    delegation(R, P)
     offsets(R, P)
     format_table(R, P)
     units(R, P)
@@ -459,6 +517,8 @@ def analyse(ctx, replace=None, only=None):
 MUTANTS = [
     {"name": "jun-jul-swapped", "file": FILE, "expect": "MONTH-TABLE", "old": "    if (s_jun == comp_val) {\n        return 5;", "new": "    if (s_jul == comp_val) {\n        return 5;"},
     {"name": "key-from-wrong-name", "file": FILE, "expect": "MONTH-TABLE", "old": "        s_sep = STR_TRIPLET_TO_INDEX(\"sep\");", "new": "        s_sep = STR_TRIPLET_TO_INDEX(\"set\");"},
+    {"name": "fraction-scan-stops-after-three-digits", "file": FILE, "expect": "FIELD-MAP", "old": "    for (size_t i = 1; i < str->len; ++i) {\n        if (aws_isdigit(str->ptr[i])) {\n            ++num_digits;", "new": "    for (size_t i = 1; i < str->len && num_digits < 3; ++i) {\n        if (aws_isdigit(str->ptr[i])) {\n            ++num_digits;"},
+    {"name": "timegm-by-hand-without-century-rule", "file": "source/posix/time.c", "expect": "OFFSET", "old": "time_t aws_timegm(struct tm *const t) {\n    return timegm(t);\n}", "new": "time_t aws_timegm(struct tm *const t) {\n    int64_t year = (int64_t)t->tm_year + 1900;\n    int64_t month = (int64_t)t->tm_mon + 1;\n    if (month <= 2) {\n        year -= 1;\n        month += 12;\n    }\n    int64_t days = 365 * year + year / 4 + (153 * (month - 3) + 2) / 5 + (t->tm_mday - 1) - 719483;\n    return (time_t)(days * 86400 + (int64_t)t->tm_hour * 3600 + (int64_t)t->tm_min * 60 + t->tm_sec);\n}"},
     {"name": "leap-test-on-tm-year", "file": FILE, "expect": "FIELD-MAP", "old": "    if (dt->utc_assumed || seconds_offset) {\n        dt->timestamp = aws_timegm(&parsed_time);", "new": "    if (parsed_time.tm_mon == 1 && parsed_time.tm_mday == 29 && parsed_time.tm_year % 400 != 0 && parsed_time.tm_year % 100 == 0) {\n        return aws_raise_error(AWS_ERROR_INVALID_DATE_STR);\n    }\n    if (dt->utc_assumed || seconds_offset) {\n        dt->timestamp = aws_timegm(&parsed_time);"},
     {"name": "month-not-zero-based", "file": FILE, "expect": "FIELD-MAP", "old": "    parsed_time->tm_mon -= 1;\n", "new": ""},
     {"name": "year-accessor-off", "file": FILE, "expect": "FIELD-MAP", "old": "    return (uint16_t)(time->tm_year + 1900);", "new": "    return (uint16_t)(time->tm_year + 1970);"},
